@@ -2553,7 +2553,7 @@ impl<'a, E: quiver_core::effects::Effect> Compiler<'a, E> {
                 // Keep the result on the stack for the next chain (threading); short-circuit to the
                 // end of the sequence if it is nil.
                 let end_jump = self.codegen.emit_duplicate_jump_if_nil();
-                end_jumps.push(end_jump);
+                end_jumps.push((end_jump, self.local_count));
 
                 // After the jump, if chain could be nil, narrow bindings created in this chain.
                 // This handles cases like `a ~> =x, [x, 1] ~> %num.add` where x needs to be
@@ -2568,9 +2568,31 @@ impl<'a, E: quiver_core::effects::Effect> Compiler<'a, E> {
             }
         }
 
-        let end_addr = self.codegen.instructions.len();
-        for jump_addr in end_jumps {
-            self.codegen.patch_jump_to_addr(jump_addr, end_addr);
+        // A step that short-circuits leaves the sequence before the later steps have stored their
+        // bindings. Whatever runs after the sequence (a REPL session keeps the locals of a whole
+        // line) counts on one slot per binding, so each early exit fills the missing slots with
+        // nil before joining the end — the same convention a failed match follows.
+        let final_locals = self.local_count;
+        if end_jumps.iter().any(|&(_, locals)| locals < final_locals) {
+            let skip_pads = self.codegen.emit_jump_placeholder();
+            let mut pad_exits = Vec::new();
+            for (jump_addr, locals) in end_jumps {
+                self.codegen.patch_jump_to_here(jump_addr);
+                for _ in locals..final_locals {
+                    self.codegen.add_instruction(Instruction::Tuple(NIL));
+                    self.codegen.add_instruction(Instruction::Store);
+                }
+                pad_exits.push(self.codegen.emit_jump_placeholder());
+            }
+            self.codegen.patch_jump_to_here(skip_pads);
+            for jump_addr in pad_exits {
+                self.codegen.patch_jump_to_here(jump_addr);
+            }
+        } else {
+            let end_addr = self.codegen.instructions.len();
+            for (jump_addr, _) in end_jumps {
+                self.codegen.patch_jump_to_addr(jump_addr, end_addr);
+            }
         }
 
         let result_type = last_type.ok_or_else(|| Error::InternalError {
